@@ -22,7 +22,7 @@ SpInd == << A(202, "indirect_register", TRUE, FALSE) >>
 \* one-operand variants
 Pool1 == { V(sp, <<s>>, {}) : sp \in {<<>>, <<SpReg>>, <<SpNum>>, <<SpInd, SpReg>>}, s \in Sets1 }
          \cup { V(<<SpReg>>, <<>>, {}), V(<<SpNum, SpReg>>, <<>>, {}) }
-Texts1 == { <<t>> : t \in {"r", "r2", "[r]", "[r+n]", "[n]", "[[n]]", "r+n", "key", "num", "lab", "{n}"} }
+Texts1 == { <<t>> : t \in {"r", "r2", "[r]", "[r+n]", "[n]", "[[n]]", "r+n", "key", "num", "lab", "{n}", "hexa", "chra"} }
 \* two-operand variants
 Sp2 == << A(210, "register", FALSE, FALSE), A(211, "numeric", FALSE, FALSE) >>
 Pool2 == { V(sp, <<s1, s2>>, d) : sp \in {<<>>, <<Sp2>>}, s1 \in {SA, SE, SC}, s2 \in {SA, SD, SH},
